@@ -316,7 +316,7 @@ func RunC13(run *vk.Run) {
 		run.Infra(fmt.Errorf("emitted %d transitions but TLC generated %d", len(em.Edges), em.Generated-1))
 		return
 	}
-	names := []string{"a", "b", "c", "endorsement"}
+	names := []string{"a", "b", "c", "endorsement", "q/a"} // "q/a": a candidate name with a directory part (same base name as "a")
 	imgs := []string{"i1", "i2", "i3", "i4"}
 	for _, id := range imgs {
 		if _, err := poolEndorsement(id); err != nil {
@@ -376,7 +376,7 @@ func RunC13(run *vk.Run) {
 	}
 	parallel(walks, func(wi int) {
 		r := rand.New(rand.NewSource(run.Seed*7919 + int64(wi)))
-		wnames := []string{"a", "b", "c", "endorsement", "e", "f"}
+		wnames := []string{"a", "b", "c", "endorsement", "e", "f", "q/a", "q/e"}
 		wimgs := []string{"i1", "i2", "i3", "i4", "i5", "i6", "i7"}
 		head := map[string][]byte{}
 		useDisk := wi%2 == 1
